@@ -3916,9 +3916,8 @@ def fix_import_spacing(source: str) -> str:
         else:
             continue
 
-        indentation_level = formatting.indentation_level(
-            whitespace_between + source[i2_start:i2_end]
-        )
+        # The column of the statement itself; lines of a string inside it may start further left
+        indentation_level = i2.col_offset
         spacing = "\n" * correct_newline_count + " " * indentation_level
         spacing = re.sub(r"\n +\n", "\n\n", spacing)
         replacement_range = core.Range(i1_end, i2_start)
